@@ -1,5 +1,9 @@
 //! Stream / file family (C12) and adversarial readers (C17).
 #![cfg(all(feature = "easy", feature = "std"))]
+use crate::json::*;
+use crate::rng::Rng;
+use crate::variants::*;
+use std::io::{ErrorKind, Read};
 
 /// GeneratorOrIOError -> ("Generator", kind) | ("IO", io kind)
 pub fn conv(r: Result<Vec<u8>, tlsh::GeneratorOrIOError>) -> Result<Vec<u8>, (String, String)> {
@@ -7,4 +11,297 @@ pub fn conv(r: Result<Vec<u8>, tlsh::GeneratorOrIOError>) -> Result<Vec<u8>, (St
         tlsh::GeneratorOrIOError::GeneratorError(g) => ("Generator".to_string(), format!("{:?}", g)),
         tlsh::GeneratorOrIOError::IOError(io) => ("IO".to_string(), format!("{:?}", io.kind())),
     })
+}
+
+#[derive(Clone, Debug)]
+pub enum Step {
+    Deliver(usize),
+    Interrupt,
+    Error(ErrorKind),
+    Eof,
+    Misreport(usize), // how many bytes beyond the buffer length are claimed
+}
+
+/// A reader that follows a script and logs every read call.
+pub struct ScriptReader {
+    pub script: Vec<Step>,
+    pub pos: usize,
+    pub data: Content,
+    pub off: usize,
+    pub log: Vec<String>,
+}
+
+pub enum Content {
+    Explicit(Vec<u8>),
+    Periodic(Vec<u8>, usize), // pattern, total size
+}
+
+impl Content {
+    fn len(&self) -> usize {
+        match self {
+            Content::Explicit(d) => d.len(),
+            Content::Periodic(_, n) => *n,
+        }
+    }
+    pub fn materialize(&self) -> Vec<u8> {
+        match self {
+            Content::Explicit(d) => d.clone(),
+            Content::Periodic(p, n) => (0..*n).map(|i| p[i % p.len()]).collect(),
+        }
+    }
+}
+
+impl Read for ScriptReader {
+    fn read(&mut self, buf: &mut [u8]) -> std::io::Result<usize> {
+        let step = self.script.get(self.pos).cloned().unwrap_or(Step::Eof);
+        self.pos += 1;
+        let remaining = self.data.len() - self.off;
+        match step {
+            Step::Deliver(k) if remaining > 0 => {
+                let n = k.max(1).min(buf.len()).min(remaining);
+                match &self.data {
+                    Content::Explicit(d) => {
+                        buf[..n].copy_from_slice(&d[self.off..self.off + n]);
+                        self.log.push(format!(
+                            "{{\"e\":\"read\",\"buflen\":{},\"ret\":{{\"kind\":\"ok\",\"data\":{}}}}}",
+                            buf.len(),
+                            bytes_json(&buf[..n])
+                        ));
+                    }
+                    Content::Periodic(p, _) => {
+                        for (i, b) in buf[..n].iter_mut().enumerate() {
+                            *b = p[(self.off + i) % p.len()];
+                        }
+                        self.log.push(format!(
+                            "{{\"e\":\"read\",\"buflen\":{},\"ret\":{{\"kind\":\"okp\",\"n\":{},\"pat\":{},\"off\":{}}}}}",
+                            buf.len(),
+                            n,
+                            bytes_json(p),
+                            self.off
+                        ));
+                    }
+                }
+                self.off += n;
+                Ok(n)
+            }
+            Step::Deliver(_) | Step::Eof => {
+                self.log.push(format!("{{\"e\":\"read\",\"buflen\":{},\"ret\":{{\"kind\":\"eof\"}}}}", buf.len()));
+                Ok(0)
+            }
+            Step::Interrupt => {
+                self.log.push(format!("{{\"e\":\"read\",\"buflen\":{},\"ret\":{{\"kind\":\"int\"}}}}", buf.len()));
+                Err(std::io::Error::new(ErrorKind::Interrupted, "scripted interruption"))
+            }
+            Step::Error(kind) => {
+                self.log.push(format!(
+                    "{{\"e\":\"read\",\"buflen\":{},\"ret\":{{\"kind\":\"err\",\"err\":\"{:?}\"}}}}",
+                    buf.len(),
+                    kind
+                ));
+                Err(std::io::Error::new(kind, "scripted error"))
+            }
+            Step::Misreport(extra) => {
+                let n = buf.len().saturating_add(extra.max(1));
+                self.log.push(format!(
+                    "{{\"e\":\"read\",\"buflen\":{},\"ret\":{{\"kind\":\"mis\",\"n\":{}}}}}",
+                    buf.len(),
+                    if n > (1usize << 30) { 1usize << 30 } else { n }
+                ));
+                Ok(n)
+            }
+        }
+    }
+}
+
+fn outcome_json(o: &Obs<Result<Vec<u8>, (String, String)>>) -> String {
+    if !o.p.is_empty() {
+        return "{\"kind\":\"Panic\"}".to_string();
+    }
+    match o.v.as_ref().unwrap() {
+        Ok(h) => format!("{{\"kind\":\"Hash\",\"r\":{}}}", res_json(&Ok(h.clone()))),
+        Err((cat, e)) if cat == "Generator" => format!("{{\"kind\":\"Hash\",\"r\":{}}}", res_json(&Err(e.clone()))),
+        Err((_, e)) => format!("{{\"kind\":\"IOError\",\"e\":\"{}\"}}", e),
+    }
+}
+
+pub fn run_stream(out: &mut Out, v: &dyn Var, content: Content, script: Vec<Step>, use_plain: bool) {
+    let small = content.len() <= 70_000;
+    let all = if small { Some(content.materialize()) } else { None };
+    let mut rd = ScriptReader { script, pos: 0, data: content, off: 0, log: Vec::new() };
+    out.emit(Ev::new("stream_begin").str("v", v.name()).meas(0, ""));
+    let o = if use_plain {
+        // tlsh::hash_stream (the Normal variant)
+        obs(|| tlsh::hash_stream(&mut rd)).map(|r| {
+            use tlsh::FuzzyHashType;
+            conv(r.map(|h| {
+                let mut img = Vec::new();
+                img.extend_from_slice(h.checksum().data());
+                img.push(h.length().value());
+                img.push(h.qratios().value());
+                img.extend_from_slice(h.body().data());
+                img
+            }))
+        })
+    } else {
+        v.hash_stream(&mut rd)
+    };
+    for line in rd.log.iter() {
+        out.emit_raw(line);
+    }
+    // hash_buf of exactly the delivered bytes, from the same process (small streams only)
+    let hb = match &all {
+        Some(d) => {
+            let r = v.hash_buf(&d[..rd.off]);
+            match r.v {
+                Some(r) => format!("{{\"kind\":\"Hash\",\"r\":{}}}", res_json(&r)),
+                None => "{\"kind\":\"Panic\"}".to_string(),
+            }
+        }
+        None => "{\"kind\":\"None\"}".to_string(),
+    };
+    out.emit(
+        Ev::new("stream_end")
+            .raw("r", &outcome_json(&o))
+            .raw("hb", &hb)
+            .num("delivered", rd.off as i64)
+            .str("panic", &o.p)
+            .meas(o.a, ""),
+    );
+}
+
+const MIB: usize = 1 << 20;
+
+fn random_script(rng: &mut Rng, total: usize, max_piece: usize, interrupts: usize) -> Vec<Step> {
+    let mut s = Vec::new();
+    let mut left = total;
+    while left > 0 {
+        let k = rng.range(1, max_piece as u64) as usize;
+        s.push(Step::Deliver(k));
+        left = left.saturating_sub(k.min(MIB));
+    }
+    s.push(Step::Eof);
+    for _ in 0..interrupts {
+        let i = rng.below(s.len() as u64 + 1) as usize;
+        s.insert(i.min(s.len() - 1), Step::Interrupt);
+    }
+    s
+}
+
+pub fn run_c12(out: &mut Out, rng: &mut Rng, thorough: bool, only: Option<&str>, with_interrupts: bool) {
+    let kinds = [ErrorKind::Other, ErrorKind::UnexpectedEof, ErrorKind::PermissionDenied, ErrorKind::TimedOut, ErrorKind::WouldBlock];
+    for v in VARIANTS.iter() {
+        if only.map_or(false, |o| o != v.name()) {
+            continue;
+        }
+        let reps = if thorough { 8 } else { 2 };
+        // small streams, arbitrary partial reads
+        for r in 0..reps {
+            for n in [0usize, 3, 10, 49, 50, 51, 128, 300, 1500] {
+                let data = if r % 2 == 0 { rng.bytes(n) } else { crate::fam_gen::periodic(&[0xa4, 0x0e, 0x33], n) };
+                let ints = if with_interrupts { rng.below(4) as usize } else { 0 };
+                let script = random_script(rng, n, 40, ints);
+                run_stream(out, *v, Content::Explicit(data), script, v.name() == "Normal" && r == 0);
+            }
+        }
+        // a hard error at every position class, several kinds
+        for (i, kind) in kinds.iter().enumerate() {
+            let n = 200;
+            let mut script = random_script(rng, n, 60, 0);
+            let at = match i % 3 {
+                0 => 0,
+                1 => script.len() / 2,
+                _ => script.len() - 1,
+            };
+            script.insert(at, Step::Error(*kind));
+            if with_interrupts && i % 2 == 0 {
+                script.insert(0, Step::Interrupt);
+            }
+            run_stream(out, *v, Content::Explicit(rng.bytes(n)), script, false);
+        }
+        // interruptions in a row: at the start, in the middle, just before EOF
+        if with_interrupts {
+            for place in 0..3 {
+                let n = 120;
+                let mut script = random_script(rng, n, 50, 0);
+                let at = match place {
+                    0 => 0,
+                    1 => script.len() / 2,
+                    _ => script.len() - 1,
+                };
+                for _ in 0..rng.range(1, 5) {
+                    script.insert(at, Step::Interrupt);
+                }
+                run_stream(out, *v, Content::Explicit(rng.bytes(n)), script, false);
+            }
+        }
+        // streams around and beyond the internal 1 MiB buffer (periodic content)
+        if v.ck_len() == 1 {
+            let sizes: Vec<usize> = if thorough { vec![MIB - 1, MIB, MIB + 1, 3 * MIB + 7] } else { vec![MIB, MIB + 1, 2 * MIB + 5] };
+            for (j, n) in sizes.into_iter().enumerate() {
+                let pat = match j % 3 {
+                    0 => vec![0xa4, 0x0e],
+                    1 => vec![1, 2, 3],
+                    _ => rng.bytes(4),
+                };
+                let mut script = if j % 2 == 0 {
+                    vec![Step::Deliver(usize::MAX); 8]
+                } else {
+                    random_script(rng, n, MIB, 0)
+                };
+                if with_interrupts {
+                    script.insert(1, Step::Interrupt);
+                }
+                run_stream(out, *v, Content::Periodic(pat, n), script, false);
+            }
+        }
+    }
+    files(out, rng, thorough, only);
+}
+
+fn files(out: &mut Out, rng: &mut Rng, thorough: bool, only: Option<&str>) {
+    let dir = std::env::var("VREC_TMP").unwrap_or_else(|_| "/verif/work/tmp".to_string());
+    let _ = std::fs::create_dir_all(&dir);
+    for v in VARIANTS.iter() {
+        if only.map_or(false, |o| o != v.name()) || v.ck_len() != 1 {
+            continue;
+        }
+        let sizes: Vec<usize> = if thorough { vec![0, 100, MIB - 1, MIB, MIB + 1, 3 * MIB + 7] } else { vec![0, 100, MIB, MIB + 1] };
+        for n in sizes {
+            let pat = rng.bytes(3);
+            let path = std::path::PathBuf::from(format!("{}/f-{}-{}-{}.bin", dir, std::process::id(), v.name(), n));
+            let data: Vec<u8> = (0..n).map(|i| pat[i % 3]).collect();
+            std::fs::write(&path, &data).expect("write temp file");
+            let o = v.hash_file(&path);
+            let _ = std::fs::remove_file(&path);
+            out.emit(
+                Ev::new("file").str("v", v.name()).bytes("pat", &pat).num("size", n as i64)
+                    .raw("r", &outcome_json(&o)).meas(o.a, &o.p),
+            );
+        }
+        let missing = std::path::PathBuf::from(format!("{}/does-not-exist-{}", dir, std::process::id()));
+        let o = v.hash_file(&missing);
+        out.emit(Ev::new("file_err").str("v", v.name()).str("why", "missing").raw("r", &outcome_json(&o)).meas(o.a, &o.p));
+        let o = v.hash_file(std::path::Path::new(&dir));
+        out.emit(Ev::new("file_err").str("v", v.name()).str("why", "directory").raw("r", &outcome_json(&o)).meas(o.a, &o.p));
+    }
+}
+
+/// C17: readers that claim more than the buffer holds.
+pub fn run_misreport(out: &mut Out, rng: &mut Rng, only: Option<&str>) {
+    for v in VARIANTS.iter() {
+        if only.map_or(false, |o| o != v.name()) {
+            continue;
+        }
+        for extra in [1usize, MIB, 4 * MIB, usize::MAX / 2] {
+            for lead in [0usize, 1] {
+                let mut script = Vec::new();
+                for _ in 0..lead {
+                    script.push(Step::Deliver(100));
+                }
+                script.push(Step::Misreport(extra));
+                script.push(Step::Eof);
+                run_stream(out, *v, Content::Explicit(rng.bytes(300)), script, false);
+            }
+        }
+    }
 }
